@@ -15,7 +15,7 @@
    present.  Where an invariant lemma exists the statement is composed with it: after ANY history the bytes written decode. *)
 From HV Require Import Base.Prelude Base.Outcome Base.Bytes Base.Crc32 Spec.Lookup3 Spec.Parse Spec.Format Spec.FormatNode
   Model.ChunkIndex Proofs.ChunkIndex
-  Proofs.SpecNodeGHeap Proofs.SpecNodeBT2 Proofs.SpecNodeFHeap Proofs.SpecNodeBTree1.
+  Proofs.SpecNodeGHeap Proofs.SpecNodeBT2 Proofs.SpecNodeFHeap Proofs.SpecNodeFHeapId Proofs.SpecNodeBTree1.
 
 (* ================================================================== global heap collection (III.E) *)
 (* every well-formed collection builder of at least the minimum collection size, any tolerance: the only deviation is the size
@@ -144,6 +144,23 @@ Theorem C05_node_bt2_reachable : forall c ops root (rest : list N),
 Proof. exact spec_bt2_reachable. Qed.
 Print Assumptions C05_node_bt2_reachable.
 
+(* the bytes on disk: after WriteToFile from any state of the invariant, ReadAt at the header address returns bytes the
+   specification decoder accepts, and the root node address / type / record count that header announces lead to a leaf it
+   accepts with the state's records *)
+Theorem C05_node_bt2_on_disk : forall c w (root_rest : list N),
+  PB.cfg_ok c -> PB.winv c w -> hconst (MB.bt w) -> MB.next w < PB.lim c ->
+  let w1 := fst (MB.step c w MB.OStore) in
+  let s := MB.bt w1 in
+  exists hb lb,
+    MB.read_at (MB.fil w1) (MB.next w + MB.node_size (MB.bt w)) (MB.hdr_size (MB.c_osz c)) = Some hb /\
+    spec_dec_bt2hdr tolerant (MB.c_osz c) 8 hb =
+      Ok (spec_hdr (MB.header s), bt2_tags (MB.hdr_body (MB.c_osz c) (MB.header s)), []) /\
+    MB.read_at (MB.fil w1) (b2_root (spec_hdr (MB.header s))) (length (MB.encode_leaf s)) = Some lb /\
+    spec_dec_bt2leaf tolerant (b2_type (spec_hdr (MB.header s))) (N.to_nat (b2_nroot (spec_hdr (MB.header s)))) 11 lb =
+      Ok (map MB.enc_rec (MB.leaf_recs s), bt2_tags (MB.leaf_body 5 (MB.leaf_recs s))).
+Proof. exact spec_bt2_on_disk. Qed.
+Print Assumptions C05_node_bt2_on_disk.
+
 (* finding C05-btree2-crc32 on a concrete reachable tree (two inserted names) *)
 Theorem C05_btree2_crc32_refuted :
   length (MB.leaf_recs ex_bt) = 2%nat /\
@@ -237,6 +254,28 @@ Theorem C05_fhdb_trailing_crc32_refuted :
   spec_dec_fhdb tolerant 8 2048 2 0 0 (MF.encode_dblock (MF.h_blk fheap_witness)) = Ok (15, [T_fhdb_trailing_crc32]).
 Proof. exact fhdb_refuted. Qed.
 Print Assumptions C05_fhdb_trailing_crc32_refuted.
+
+(* finding C05-fheap-offset-excludes-block-prefix.  Universally: what GetObject returns for a heap id with offset [off] are
+   the bytes at offset 15 + off of the direct block the writer encodes (the specification's heap address space starts at the
+   block's first byte, prefix included) - for every state of the representation relation of Proofs/FHeap.v *)
+Theorem C05_fheap_id_offset_excludes_prefix : forall bs h fs sp id data,
+  MF.bs_ok bs = true -> PF.R bs h fs sp -> MF.get h id = MF.Ok data ->
+  exists off n, MF.parse_id h id = MF.Ok (off, n) /\
+    MF.slice (MF.encode_dblock (MF.h_blk h)) (MF.PREFIX + off) n = data.
+Proof. exact fheap_get_reads_after_prefix_R. Qed.
+Print Assumptions C05_fheap_id_offset_excludes_prefix.
+
+(* witness: an id with offset 0 whose object is at block bytes 15..24; block bytes 0..9 are the prefix *)
+Theorem C05_fheap_offset_excludes_block_prefix_refuted :
+  exists id,
+    snd (MF.insert MF.cap_new (MF.new_heap 64) (MF.obj 1 10) 0) = MF.Ok id /\
+    MF.parse_id id_heap id = MF.Ok (0, 10) /\
+    MF.get id_heap id = MF.Ok (MF.obj 1 10) /\
+    MF.slice (MF.encode_dblock (MF.h_blk id_heap)) 15 10 = MF.obj 1 10 /\
+    MF.slice (MF.encode_dblock (MF.h_blk id_heap)) 0 10 = [70; 72; 68; 66; 0; 0; 0; 0; 0; 0] /\
+    MF.slice (MF.encode_dblock (MF.h_blk id_heap)) 0 10 <> MF.obj 1 10.
+Proof. exact fheap_offset_excludes_block_prefix_refuted. Qed.
+Print Assumptions C05_fheap_offset_excludes_block_prefix_refuted.
 
 (* the hypothesis "block size is a power of two" is needed (the library itself passes 64 KiB and 512 KiB) *)
 Theorem C05_fheap_hdr_start_not_pow2_refuted :
